@@ -141,6 +141,7 @@ type K struct {
 	rng    *rand.Rand
 	inputs []kv
 	failed bool
+	stash  map[string]any // per-case scratch for monitors that span several calls
 }
 
 type kv struct {
